@@ -80,9 +80,10 @@ const (
 	clsEmptiedDir = "c04.emptied_dir_pruned_in_final_view"
 	// An entry whose header name is absolute.
 	clsAbsName = "c04.absolute_entry_name"
-	// A regular file is turned into a directory only implicitly (a later layer has entries
-	// beneath it but none for the directory itself) and the final view has nothing but
-	// directories beneath it: the squashed unpacking still writes the old regular file.
+	// A regular file or symlink is turned into a directory only implicitly (a later layer has
+	// entries beneath it but none for the directory itself) and nothing beneath it is certain
+	// to be unpacked first: the squashed unpacking still creates the old file / link (and may
+	// then fail to create, or wrongly require, what lies beneath).
 	clsUnpackStale = "c04.unpack_stale_file_under_implicit_dir"
 	// Path-set requirer: a regular file of the final view that is not retained is also part of
 	// an earlier view (same tar entry): pruning the final view deletes the shared backing file.
@@ -242,9 +243,7 @@ func c04Features(cs c04Case) (finding map[string]bool, labels map[string]bool, a
 				if n, ok := lower[a]; ok && n.Kind != overlay.Dir {
 					affectsLower = true
 					labels["nondir_to_implicit_dir"] = true
-					if n.Kind == overlay.File {
-						fileToImplicit = append(fileToImplicit, a)
-					}
+					fileToImplicit = append(fileToImplicit, a)
 				}
 				if n, ok := views[k][a]; ok && n.Kind == overlay.Dir && !n.Implicit && n.Mode.Perm() != 0 {
 					// explicit below (not removed by this layer), implicit here
@@ -673,6 +672,16 @@ func retained(v overlay.View, set map[string]bool, maxDepth int) map[string]bool
 // final view (non-required files must be absent).
 func restrict(v overlay.View, set map[string]bool, final bool) viewPair {
 	keep := retained(v, set, c04Depth)
+	if !final {
+		// the documented retention of link targets concerns the pruned (final) view; an
+		// earlier view only has to offer what is required directly
+		keep = map[string]bool{}
+		for p, n := range v {
+			if n.Kind != overlay.Dir && requiredBy(set, p) {
+				keep[p] = true
+			}
+		}
+	}
 	must := overlay.NewView()
 	may := overlay.NewView()
 	for p, n := range v {
@@ -1157,7 +1166,7 @@ func TestC04_overlay(t *testing.T) {
 	if ev.Replaying() && ev.ReplayLeg() != "" && ev.ReplayLeg() != t.Name() {
 		t.Skip("replay file is for another leg")
 	}
-	ev.Check(t, col, ev.Scale(ev.IntEnv("VERIF_C04_CHECKS", 2000), ev.IntEnv("VERIF_C04_CHECKS", 12000)), genC04(col), propC04)
+	ev.Check(t, col, ev.Scale(ev.IntEnv("VERIF_C04_CHECKS", 2000), ev.IntEnv("VERIF_C04_CHECKS", 6000)), genC04(col), propC04)
 }
 
 // ---------------------------------------------------------------------------------------
@@ -1229,6 +1238,7 @@ func TestC04_sweep(t *testing.T) {
 	defer func() { col.Flush(completed) }()
 	if ev.Replaying() {
 		if ev.ReplayLeg() != t.Name() {
+			completed = true
 			t.Skip("replay file is for another leg")
 		}
 		ev.HandleReplay(t, col, propC04)
@@ -1277,7 +1287,22 @@ func TestC04_sweep(t *testing.T) {
 	col.AddExtra("sweep_images_checked", done)
 	col.AddExtra("sweep_images_in_known_classes", skipped)
 	if stride == 1 {
-		col.SetExtra("sweep_complete", true)
+		col.AddExtra("sweep_shards_completed", 1)
 	}
 	completed = true
+}
+
+// TestC04_classify is a triage helper: VERIF_C04_CLASSIFY=<replay file> prints the finding
+// classes and labels of the case (it never fails and is skipped otherwise).
+func TestC04_classify(t *testing.T) {
+	p := os.Getenv("VERIF_C04_CLASSIFY")
+	if p == "" {
+		t.Skip("triage helper")
+	}
+	var cs c04Case
+	if err := ev.ReplayCase(p, &cs); err != nil {
+		t.Fatal(err)
+	}
+	f, l, aff := c04Features(cs)
+	fmt.Printf("finding classes: %v\nlabels: %v\naffects lower: %v\n", sortedKeys(f), sortedKeys(l), aff)
 }
